@@ -228,4 +228,5 @@ package kvm
 //@   requires kvm != nil && kvm.StateDB != nil && callContext != nil && callContext.Contract != nil && callContext.Stack != nil && kvm.interpreter != nil && !kvm.interpreter.cfg.Debug
 //@   modifies *
 //@   atcall StateDB.AddBalance requires [wholeBalanceCredited] amount != nil && amount.v == s.bal[refAddr(callContext.Contract.self)]
+//@   atcall StateDB.Suicide requires [creditedBeforeTheBalanceIsZeroed] a == refAddr(callContext.Contract.self) && (exists b common.Address :: s.bal == upd(old(s.bal), b, old(s.bal)[b] + old(s.bal)[a]))
 //@   ensures [valueMovedNotDestroyed] exists b common.Address :: kvm.StateDB.bal == upd(upd(old(kvm.StateDB.bal), b, old(kvm.StateDB.bal)[b] + old(kvm.StateDB.bal)[refAddr(callContext.Contract.self)]), refAddr(callContext.Contract.self), 0)
